@@ -196,20 +196,28 @@ def run(ctx):
     W = c11.find_worker(ctx, A)
     n_prov = 0
     if W is not None:
-        for b, t in W.calls():
-            if t["res"] == "item" and t.get("rlocal") and t.get("rpath") not in A.done_fns:
-                for a in t["args"]:
-                    o = W.op_origin(a)
-                    aggs = [s for s in subexprs(o) if s[0] == "agg" and any(n == "key_description" for n, x in s[3]) and any(n == "value" for n, x in s[3])]
+        seen_sites = set()
+        for p_ in c11.worker_paths(ctx, A, W):
+            for e in p_.events:
+                if e.log or not (e.t["res"] == "item" and e.t.get("rlocal")) or e.callee in A.done_fns:
+                    continue
+                for o in e.args:
+                    o = inline_ctor(F, o)
+                    aggs = [s_ for s_ in subexprs(o) if s_[0] == "agg" and any(n == "key_description" for n, x in s_[3]) and any(n == "value" for n, x in s_[3])]
+                    aggs += [inline_ctor(F, s_) for s_ in subexprs(o) if s_[0] == "call" and s_[1] in F.fns]
+                    aggs = [a_ for a_ in aggs if a_[0] == "agg" and any(n == "key_description" for n, x in a_[3]) and any(n == "value" for n, x in a_[3])]
                     for ag in aggs:
                         d = dict(ag[3])
-                        kdv = [s for s in subexprs(d["key_description"]) if s[0] == "variant"]
-                        vv = [s for s in subexprs(d["value"]) if s[0] == "variant"]
-                        n_prov += 1
+                        kdv = [s_ for s_ in subexprs(d["key_description"]) if s_[0] == "variant"]
                         val = peel_identity(d["value"])
+                        site = (e.fn.name, e.bb, kdv[0][2] if kdv else "?")
+                        if site in seen_sites:
+                            continue
+                        seen_sites.add(site)
+                        n_prov += 1
                         ok = bool(kdv) and val[0] == "field" and strip_site(val[1]) == strip_site(kdv[0])
                         ctx.check(ok, "R02.5", "%s|key-and-value-from-same-command|%s" % (W.name, kdv[0][2] if kdv else "?"),
-                                  "the key description and the value handed to the put handler are payloads of the same dequeued command", W.where(b))
+                                  "the key description and the value handed to the put handler are payloads of the same dequeued command", e.where())
     ctx.floor("R02.5", "put handler invocations in the worker", n_prov, 1)
     for fname in sorted(S.insert_fns):
         g = F.fn(fname)
